@@ -72,11 +72,13 @@ def coq_expected(exp, ints):
     return f"(RVal {gzl(ints)})"
 
 
-def oracle_pair(w, frames, leaves, i, j, pt):
-    """the property statement, directly on the implementation"""
+def oracle_pair(w, frames, leaves, i, j, pt, fi=None, fj=None):
+    """the property statement, directly on the implementation (fi / fj: the frame given by object or by name)"""
     k = len(frames)
+    fi = frames[i] if fi is None else fi
+    fj = frames[j] if fj is None else fj
     try:
-        t = w.get_transform(frames[i], frames[j])
+        t = w.get_transform(fi, fj)
     except Exception as e:  # noqa
         if i > j and any(not l.invertible for l in leaves[j:i]):
             return None     # no inverse exists: raising is right
@@ -134,6 +136,7 @@ def run(ctx):
             queries.append(("gt", i, j, byobj_i and as_obj[i], byobj_j and as_obj[j]))
         queries.append(("gt_unknown_from",))
         queries.append(("gt_unknown_to",))
+        queries.append(("gt_unknown_both",))
         queries.append(("fwd",))
         if k >= 2:
             i, j = rng.randrange(k), rng.randrange(k)
@@ -146,7 +149,9 @@ def run(ctx):
                 exp = expected_of(lambda: w.get_transform(fi, fj))
                 cf_, cg = pipes.coq_fref(i, oi), pipes.coq_fref(j, oj)
                 call = f"m_get_transform w {cf_} {cg}"
-                bad = oracle_pair(w, frames, leaves, i, j, pt)
+                bad = oracle_pair(w, frames, leaves, i, j, pt, fi, fj)
+                if bad:
+                    bad += f" [from given as {'object' if oi else 'name'}, to as {'object' if oj else 'name'}]"
                 if bad:
                     oracle_bad.append((bad, dict(n=n, leaves=[(l.perm, l.signs, l.offs, l.invertible) for l in leaves],
                                                 as_obj=as_obj, pair=(i, j), point=pt)))
@@ -156,6 +161,9 @@ def run(ctx):
             elif q[0] == "gt_unknown_to":
                 exp = expected_of(lambda: w.get_transform("f0", "nosuch"))
                 call = "m_get_transform w (FStr 0) (FStr 99)"
+            elif q[0] == "gt_unknown_both":
+                exp = expected_of(lambda: w.get_transform("nosuch", "nosuch"))
+                call = "m_get_transform w (FStr 99) (FStr 99)"
             elif q[0] == "fwd":
                 exp = expected_of(lambda: w.forward_transform)
                 call = "m_forward_transform w"
@@ -165,6 +173,9 @@ def run(ctx):
                 if exp[0] == "val" and exp[1] is None:
                     exp = ("none",)
                 call = f"m_get_transform w (FStr {i}) (FStr {j})"
+            if q[0].startswith("gt_unknown") and exp[0] != "err":
+                oracle_bad.append((f"get_transform with a frame that is not in the pipeline ({q[0][11:]}) was answered ({exp[0]}) instead of "
+                                   "being reported as an error", dict(n=n, steps=k, query=q[0])))
             ints = None
             if exp[0] == "val":
                 val = exp[1]
